@@ -34,7 +34,7 @@ CLAIMED["C15"] = dict(
          "(coversSpec = textual prefix + segment boundary; validCmd = leading slash, no trailing slash, lower-case fixed point); "
          "reflexivity, antisymmetry, transitivity, top-covers-all and no-textual-prefix are proved as lemmas over coversSpec.",
     note="Assumed: strings.HasPrefix/HasSuffix as their definitions; 'no upper-case letters' is read as strings.ToLower(s)==s. "
-         "Not yet machine-checked in this tree: the bridge from coversSpec to 'segments are a list prefix' (Lean lemma, DESIGN.md App. D) and the Join/Segments clause.",
+         "The bridge from coversSpec to 'segments are a list prefix' is a Lean 4 proof (lemmas/Seg.lean) re-checked by lean on every run, with a drift guard tying its definition to the contract's coversSpec; the string-vs-character-list reading of that definition is by inspection. Join/Segments are not under contract.",
     design="DESIGN.md §3 C15")
 CLAIMED["C13"] = dict(
     text="Proof (unbounded): glob.Match is verified for every pattern and every string against the recursive language definition globM "
